@@ -20,10 +20,12 @@ import (
 	"context"
 	"fmt"
 	"reflect"
+	"runtime/debug"
 
 	"github.com/cloudwego/eino/callbacks"
 	icb "github.com/cloudwego/eino/internal/callbacks"
 	"github.com/cloudwego/eino/internal/generic"
+	"github.com/cloudwego/eino/internal/safe"
 	"github.com/cloudwego/eino/schema"
 )
 
@@ -165,7 +167,21 @@ func runWithCallbacks[I, O, TOption any](r func(context.Context, I, ...TOption) 
 	return func(ctx context.Context, input I, opts ...TOption) (output O, err error) {
 		ctx, input = onStart(ctx, input)
 
+		// a unit that has started is always ended: a panic of the wrapped function is reported to the handlers as the
+		// unit's error before it travels on to whoever recovers it (task executor, tool call goroutine)
+		returned := false
+		defer func() {
+			if returned {
+				return
+			}
+			if panicInfo := recover(); panicInfo != nil {
+				_, _ = onError(ctx, safe.NewPanicErr(panicInfo, debug.Stack()))
+				panic(panicInfo)
+			}
+		}()
+
 		output, err = r(ctx, input, opts...)
+		returned = true
 		if err != nil {
 			ctx, err = onError(ctx, err)
 			return output, err
